@@ -26,7 +26,10 @@ Inductive shape :=
 | SOpt (s : shape)
 | SVec (s : shape)
 | SKeyed (s : shape)
-| SBox (s : shape).      (* Box<T>: same encoding as T; patched as a whole (harness impl) *)
+| SBox (s : shape)       (* Box<T>: same encoding as T; patched as a whole (harness impl) *)
+| SEnum (vs : list (list shape)).
+                         (* enum with #[derive(Store)]: one list of field shapes per variant; value =
+                            (tag field..); patched as a whole (derive(Patch) does not support enums) *)
 
 (** one accessor of a chain: .field_i(), .unwrap(), .at_unkeyed(i), AtKeyed::new(.., k), and
     [Era 0]: hand the field on as a type-erased ArcField (`ArcField::from(field)`: same path,
@@ -34,8 +37,14 @@ Inductive shape :=
     [Era 1]: as an arena-allocated Field (`Field::from(ArcField::from(field))`, which delegates
     everything to that ArcField); [Era 2] (first step only): start from the ArcStore handle of
     the store instead of the arena-allocated Store; [Drf]: `.deref_field()` of a Box field
-    (DerefedField: same path, the boxed value) *)
-Inductive step := Fld (i : nat) | Unw | Idx (i : nat) | Key (k : Z) | Era (kind : nat) | Drf.
+    (DerefedField: same path, the boxed value); [Var a i]: field i of variant a of an enum,
+    through the generated accessor `fn <variant>_<field>(self) -> Option<Subfield>` (called
+    untracked by the harness): `Subfield::new(self, i.into(), ..)` when the value is of
+    that variant (segment = index of the field in its variant, since the repair of F-C16-j) *)
+Inductive step := Fld (i : nat) | Unw | Idx (i : nat) | Key (k : Z) | Era (kind : nat) | Drf
+                | Var (a i : nat).
+
+Definition enum_tag (v : sexp) : nat := Z.to_nat (as_Z (nth_s 0 v)).
 
 Definition item_key (it : sexp) : Z := as_Z (nth_s 0 it).
 Definition keys_of (v : sexp) : list Z := map item_key (as_list v).
@@ -64,6 +73,7 @@ Definition has_child (r : reached) (v : sexp) (st : step) : bool :=
   | SKeyed _, Idx i => Nat.ltb i (length (as_list v))
   | SKeyed _, Key k => existsb (Z.eqb k) (keys_of v)
   | SBox _, Drf => true
+  | SEnum vs, Var a i => Nat.eqb (enum_tag v) a && Nat.ltb i (length (nth a vs []))
   | _, _ => false
   end.
 
@@ -85,6 +95,9 @@ Definition extend (r : reached) (v : sexp) (st : step) : reached :=
           mkReached None s (nth_error (as_list v) idx) (r_segs r ++ [seg]) (r_lens r ++ [idx]) km
       | None => mkReached None s None (r_segs r) (r_lens r) km
       end
+  | SEnum vs, Var a i =>
+      mkReached None (nth i (nth a vs []) SInt) (nth_error (as_list v) (S i)) (r_segs r ++ [i])
+                (r_lens r ++ [S i]) (r_keys r)
   | _, _ => mkReached None SInt None (r_segs r) (r_lens r) (r_keys r)
   end.
 
@@ -125,7 +138,7 @@ Fixpoint set_at (v : sexp) (lens : list nat) (new : sexp) : sexp :=
 (** PatchField::patch_field: the new value and the paths handed to `notify`, in order *)
 Fixpoint patch_val (sh : shape) (old new : sexp) (p : path) {struct sh} : sexp * list path :=
   match sh with
-  | SInt | SBox _ => if sexp_eqb old new then (old, []) else (new, [p])
+  | SInt | SBox _ | SEnum _ => if sexp_eqb old new then (old, []) else (new, [p])
   | SStruct fs =>
       let fix go (fs : list shape) (os ns : list sexp) (i : nat) {struct fs} : list sexp * list path :=
         match fs, os, ns with
@@ -383,6 +396,36 @@ Definition do_patch_g (md : state -> nat -> state) (sh : shape) (s : state) (cha
 Definition do_set := do_set_g wake.
 Definition do_patch := do_patch_g wake.
 
+(** an untracked write (`try_write_untracked`, `try_update_untracked`, `try_maybe_update` whose
+    closure reports "unchanged"): the value is replaced, a keyed collection field refreshes
+    its keys when the guard is dropped, nobody is notified *)
+Definition do_set_u (sh : shape) (kc : list nat * list nat) (s : state)
+           (chain : list step) (new : sexp) : state * bool :=
+  let '(r, j) := walk (root_reached sh s) chain 0 in
+  if negb (Nat.eqb j (length chain)) then (s, false) else
+  match r_val r with
+  | None => (with_val_keys s (st_val s) (r_keys r), false)
+  | Some _ =>
+      let v' := set_at (st_val s) (r_lens r) new in
+      let km :=
+        match kind_of r with
+        | WKeyed => km_update (fst kc) (snd kc) (r_segs r) (keys_of new) (r_keys r)
+        | _ => r_keys r
+        end in
+      (with_val_keys s v' km, true)
+  end.
+
+(** `keyed_field.update_keys()` called by the user *)
+Definition do_update_keys (sh : shape) (kc : list nat * list nat) (s : state) (chain : list step)
+  : state * bool :=
+  let '(r, j) := walk (root_reached sh s) chain 0 in
+  if negb (Nat.eqb j (length chain)) then (s, false) else
+  match r_sh r, r_val r with
+  | SKeyed _, Some v =>
+      (with_val_keys s (st_val s) (km_update (fst kc) (snd kc) (r_segs r) (keys_of v) (r_keys r)), true)
+  | _, _ => (with_val_keys s (st_val s) (r_keys r), false)
+  end.
+
 (** report and reset the logs *)
 Definition report (s : state) (extra : list sexp) : sexp * state :=
   (Lst ([snats (st_wakes s); Lst (st_runs s)] ++ extra),
@@ -428,7 +471,8 @@ Fixpoint zassoc {B} (k : Z) (l : list (Z * B)) : option B :=
 Definition chain_id (c : list step) : list nat :=
   concat (map (fun st => match st with
                          | Fld i => [0; i] | Unw => [1; 0] | Idx i => [2; i]
-                         | Key k => [3; Z.to_nat k] | Era a => [4; a] | Drf => [5; 0] end) c).
+                         | Key k => [3; Z.to_nat k] | Era a => [4; a] | Drf => [5; 0]
+                         | Var a i => [6; 10 * a + i] end) c).
 Fixpoint last_of (c : list nat) (m : list (list nat * list (Z * option nat))) : list (Z * option nat) :=
   match m with
   | [] => []
@@ -440,7 +484,9 @@ Definition last_set (c : list nat) (l : list (Z * option nat)) (m : list (list n
 (** one step of a history: (op chain value) *)
 Inductive hstep := HSet (chain : list step) (v : sexp) | HPatch (chain : list step) (v : sexp)
                  | HPath (chain : list step) | HSegs (chain : list step) (ks : list Z)
-                 | HPoke (e : nat) | HNop.
+                 | HPoke (e : nat) | HNop
+                 | HSetU (chain : list step) (v : sexp)     (* untracked write *)
+                 | HUpdKeys (chain : list step).            (* KeyedSubfield::update_keys() *)
 
 Definition do_step_g (md : state -> nat -> state) (sh : shape) (readers : list reader)
            (sched : list nat) (kc : list nat * list nat) (s : state) (h : hstep) : sexp * state :=
@@ -482,6 +528,12 @@ Definition do_step_g (md : state -> nat -> state) (sh : shape) (readers : list r
       if Nat.ltb e n then report (drain n sh readers sched kc (md s e)) [sbool true]
       else report s [sbool false]
   | HNop => report s [sbool false]
+  | HSetU chain v =>
+      let '(s1, ok) := do_set_u sh kc s chain v in
+      report (drain n sh readers sched kc s1) [sbool ok]
+  | HUpdKeys chain =>
+      let '(s1, ok) := do_update_keys sh kc s chain in
+      report (drain n sh readers sched kc s1) [sbool ok]
   end.
 
 Fixpoint do_steps_g (mdf : list nat * list nat -> state -> nat -> state) (sh : shape)
